@@ -108,7 +108,7 @@ var (
 	seps      = []string{"_", "_", "_", ".", ".", "-", "/", "", "__", "._"}
 	trailers  = []string{"_", ".", "-", "/"}
 	descs     = []string{"", "", "help text", "other help", "line1\nline2", "größe \\ \"quoted\""}
-	attrKeys  = []string{"a.b", "a_b", "a-b", "a/b", "k", "K", "http.method", "http_method", "code", "x9"}
+	attrKeys  = []string{"a.b", "a_b", "a-b", "a/b", "k", "K", "http.method", "http_method", "code", "x9", "_u"}
 	attrVals  = []string{"x", "y", "z", "", "p;q", "1", "ü", "a b"}
 	resKeys   = []string{"service.name", "res.a", "res_a", "res-a", "host"}
 	scopeNms  = []string{"scope.a", "scope/b", "sc", "go.opentelemetry.io/contrib/x"}
@@ -261,6 +261,10 @@ func genInst(t *rapid.T, idx, base, nscopes, rounds int, prev *Inst) Inst {
 		}
 	default:
 		in.Keys = rapid.SliceOfNDistinct(rapid.SampledFrom(attrKeys), 1, 4, rapid.ID[string]).Draw(t, "keys")
+	}
+	if rapid.IntRange(0, 39).Draw(t, "colonkey") == 23 {
+		// legal attribute key, legal legacy METRIC name character, illegal legacy LABEL name character
+		in.Keys = append(in.Keys, "a:b")
 	}
 	nt := 1
 	if len(in.Keys) > 0 {
